@@ -609,7 +609,7 @@ def replay_concrete(harness, model):
         vals = list(a) if not isinstance(a, int) else list(range(a))
         if size is None and len(vals) == 2:
             o = S.outcome("choice")
-            if p is not None and not (p[o] > 0):
+            if p is not None and not (p[o] > 1e-12):
                 o = 1 - o  # contract of the real call: an outcome of probability 0 is never drawn
             return vals[o]
         return saved[1](a, size, replace, p)
